@@ -63,6 +63,7 @@ class Arbiter:
         self.reexec_pid = 0
         self.master_pid = 0
         self.master_name = "Master"
+        self.halt_request = None
 
         cwd = util.getcwd()
 
@@ -205,6 +206,9 @@ class Arbiter:
             while True:
                 self.maybe_promote_master()
 
+                if self.halt_request is not None:
+                    raise self.halt_request
+
                 sig = self.SIG_QUEUE.pop(0) if self.SIG_QUEUE else None
                 if sig is None:
                     self.sleep()
@@ -240,7 +244,14 @@ class Arbiter:
 
     def handle_chld(self, sig, frame):
         "SIGCHLD handling"
-        self.reap_workers()
+        try:
+            self.reap_workers()
+        except HaltServer as inst:
+            # An exception raised by a signal handler is discarded when the
+            # signal is delivered while the interpreter runs code whose
+            # exceptions are ignored (the callbacks os.fork() runs in the
+            # parent, finalizers). Let the main loop stop the server.
+            self.halt_request = inst
         self.wakeup()
 
     def handle_hup(self):
